@@ -28,6 +28,9 @@ ROLES = {
                  "param-star", "param-kwstar", "param-kwonly", "param-posonly", "param-default",
                  # a default value is evaluated in the ENCLOSING scope: it reads that scope's variable, also under the same name
                  "default-read", "default-same", "kwdefault-same", "global-assign",
+                 # expression scopes (generator expression, lambda, comprehension) inside the default values ON the def line:
+                 # sibling scopes of the function that start on the same line; the body reads the enclosing variable
+                 "default-scopes-read",
                  "global-read", "nonlocal-assign", "nonlocal-read", "nonlocal-aug", "late-assign",
                  # a (never executed) mention of __class__ BEFORE the name is used: in a method the implicit __class__ cell
                  # then precedes the name in the list of free variables
@@ -85,6 +88,7 @@ class Render:
             "param": [rd], "param-star": [rd], "param-kwstar": [rd], "param-kwonly": [rd], "param-posonly": [rd],
             "param-default": [rd], "default-same": [rd], "kwdefault-same": [rd],
             "default-read": [f"print({sid}, 'd', show(_d{sid}))", f"print({sid}, 'r', show({x}))"],
+            "default-scopes-read": [f"print({sid}, 'd', show(_d{sid}), show(_e{sid}()), show(_g{sid}))", f"print({sid}, 'r', show({x}))"],
             "global-assign": [f"global {x}", f"{x} = {t}", rd],
             "global-read": [f"global {x}", f"print({sid}, 'r', show({x}))"],
             "nonlocal-assign": [f"nonlocal {x}", f"{x} = {t}", rd],
@@ -132,6 +136,8 @@ class Render:
                 return [f"def f{sid}({x}={self.tag()}):"] + ind + [f"f{sid}()"]
             if node.role == "default-read":
                 return [f"def f{sid}(_d{sid}={x}):"] + ind + [f"f{sid}()"]
+            if node.role == "default-scopes-read":
+                return [f"def f{sid}(_d{sid}=tuple(_q + 1 for _q in (1, 2)), *, _e{sid}=lambda: 7, _g{sid}=[_r for _r in 'ab']):"] + ind + [f"f{sid}()"]
             if node.role == "default-same":
                 return [f"def f{sid}({x}={x}):"] + ind + [f"f{sid}()"]
             if node.role == "kwdefault-same":
